@@ -388,7 +388,11 @@ def unwrap_step(ctx):
                Implies(And(j >= H.lo_(U), j < Hh.lo_(U) + 1), And(Val.i(H.at(ej, 2)) == d + 1, H.at(ej, 1) != NONE)),
                Implies(And(single, un.t != NONE if un is not None else BoolVal(False)),
                        And(H.lo_(U) == Hh.lo_(U), H.at(p.read(U, H.lo_(U), H), 1) == un.t)))
-    return And(keepE, rest_same, Or(to_E, push))
+    # the guard counts CONSECUTIVE unwrap steps without progress: reaching a frame or an irreducible item resets it
+    lsp1, lsp0 = Val.i(ctx.v("loops_since_progress")), Val.i(envh["loops_since_progress"].t)
+    guard = ctx.p.ghost.get("raised") and any(True for _ in ctx.p.ghost["raised"])
+    counter = And(Implies(dE == 1, lsp1 == 0), Implies(dE == 0, lsp1 == lsp0 + 1))
+    return And(keepE, rest_same, Or(to_E, push), counter)
 
 
 INNER = Inv("C10.I_unwrap", qf=inner_qf, foralls=[("to_elaborate", fa_E), ("to_unwrap", fa_U), ("save_errors", fa_S)],
